@@ -255,7 +255,9 @@ func checkHistory(c histCase, r *h.Rec) error {
 		}
 		return want
 	}
-	hist := func(i int) string { return fmt.Sprintf("after op %d of %+v (seed %d, pat %d)", i, c.Ops[:i+1], c.Seed, c.Pat) }
+	hist := func(i int) string {
+		return fmt.Sprintf("after op %d of %+v (seed %d, pat %d)", i, c.Ops[:i+1], c.Seed, c.Pat)
+	}
 	summed := false // a Sum has already been taken on the running state
 	writes, cross, straddle := 0, 0, 0
 	sumThenWrite, resets, marshals, guarded := 0, 0, 0, 0
@@ -311,7 +313,7 @@ func checkHistory(c histCase, r *h.Rec) error {
 			w := wantNow()
 			backing := gen.Fill(gen.Mix(c.Seed, uint64(i), 0x5a), o.N+o.Off+16)
 			orig := append([]byte{}, backing...)
-			prefix := backing[:o.N : o.N+o.Off]
+			prefix := backing[: o.N : o.N+o.Off]
 			out := d.Sum(prefix)
 			summed = true
 			if len(out) != o.N+32 || !bytes.Equal(out[:o.N], orig[:o.N]) || !bytes.Equal(out[o.N:], w[:]) {
@@ -727,8 +729,13 @@ func checkKdf(c kdfCase, r *h.Rec) error {
 		r.Label("nt z%%64=%02d", c.ZLen%64)
 		r.Label("nt blocks%%8=%d", (c.N+31)/32%8)
 	}
-	if c.ZLen >= 64 {
-		r.Label("z>=64")
+	switch {
+	case c.ZLen < 64:
+		r.Label("len(z)<64")
+	case c.ZLen < 2048:
+		r.Label("len(z) 64..2047")
+	default:
+		r.Label("len(z)>=2048")
 	}
 	r.NTIf(nt)
 	return nil
